@@ -381,7 +381,7 @@ func c17hostile(r *rand.Rand, quick bool) (string, string) {
 	case 5: // deep nesting, unclosed or over-closed (depth bounded: error recovery is quadratic in depth)
 		maxd := 400
 		if !quick {
-			maxd = 2500
+			maxd = 1500
 		}
 		d := 1 + r.IntN(maxd)
 		s := "A{" + strings.Repeat("a=A{", d)
@@ -608,7 +608,7 @@ func init() {
 			var specs []Spec
 			for i := 0; i < 12; i++ {
 				s := d.NewSpec("hostile", fmt.Sprintf("hostile-%d", i), i, 12)
-				s.N = d.Pick(1700, 80000)
+				s.N = d.Pick(1700, 20000)
 				s.TimeoutS = int(d.Pick(900, 7200))
 				specs = append(specs, s)
 			}
